@@ -133,6 +133,100 @@ def _case(draw, n_hi, mazes_hi, modes, max_procs):
     return case
 
 
+def check_draws(case: dict):
+    """the endpoint-drawing step on a maze whose graph the harness knows: the model decides which start / end cells the options leave;
+    a draw must come from exactly those sets, and the draw may only be refused when the model says nothing is left"""
+    g, opts = case["g"], case["opts"]
+    r, c = g["r"], g["c"]
+    a = M.adj(g)
+    comp = M.component(a, tuple(case["root"]))
+    full = len(comp) == r * c
+    meta = {"func_name": "hand", "grid_shape": np.array([r, c]), "start_coord": np.array(case["root"]), "fully_connected": full,
+            "visited_cells": {tuple(u) for u in comp}}
+    if full and case.get("drop_meta"):
+        meta = None
+    m = L.lattice(g, meta=meta)
+    region = set(comp) if not full else {(i, j) for i in range(r) for j in range(c)}
+    S = region if opts.get("allowed_start") is None else ({tuple(x) for x in opts["allowed_start"]} & region)
+    E = region if opts.get("allowed_end") is None else ({tuple(x) for x in opts["allowed_end"]} & region)
+    if opts.get("deadend_start"):
+        S = {u for u in S if len(a[u]) == 1}
+    if opts.get("deadend_end"):
+        E = {u for u in E if len(a[u]) == 1}
+    special = opts.get("allowed_start") is not None or opts.get("allowed_end") is not None or opts.get("deadend_start") or opts.get("deadend_end")
+    ne = bool(opts.get("endpoints_not_equal"))
+    if not special:
+        must_raise = len(region) < 2
+        may_raise = must_raise
+    else:
+        must_raise = not S or not E
+        may_raise = must_raise or (ne and len(E) == 1 and E <= S)
+    kw = {k: ([tuple(x) for x in v] if isinstance(v, list) else v) for k, v in opts.items() if v is not None}
+    np.random.seed(case["np_seed"] % (2**32))
+    n_ok = 0
+    for k in range(case.get("draws", 6)):
+        try:
+            p = m.generate_random_path(**kw)
+        except ValueError as ex:
+            require(may_raise, "C03:draw:refused-although-satisfiable", f"{r}x{c} options {opts}: the model leaves {len(S)} start and {len(E)} end cells, but the draw raised {str(ex)[:80]!r}; bits={g['cl']} root={case['root']}")
+            continue
+        except Exception as ex:  # noqa: BLE001
+            raise Violation(f"C03:draw:raises:{type(ex).__name__}", f"{opts}: {str(ex)[:200]}") from ex
+        require(not must_raise, "C03:draw:accepted-although-unsatisfiable", f"options {opts}: model leaves {len(S)} start / {len(E)} end cells but a path was returned")
+        path = L.as_cells(p)
+        s_, e_ = path[0], path[-1]
+        if special:
+            require(s_ in S, "C03:draw:start-not-allowed", f"start {s_} not among the {len(S)} cells the options leave ({opts}); bits={g['cl']}")
+            require(e_ in E, "C03:draw:end-not-allowed", f"end {e_} not among the {len(E)} cells the options leave ({opts}); bits={g['cl']}")
+        else:
+            require(s_ in region and e_ in region, "C03:draw:outside-component", f"{s_}->{e_} outside the recorded component")
+        if ne or not special:
+            require(s_ != e_, "C03:draw:endpoints-equal", f"start == end == {s_} with options {opts}")
+        prob = M.path_problems(g, a, path, start=s_, end=e_, need_shortest=True, need_simple=True)
+        require(prob is None, "C03:draw:bad-solution", f"{prob}; path={path} bits={g['cl']}")
+        n_ok += 1
+    labels = ["draws", "special" if special else "plain"] + [f"ep:{k}" for k, v in opts.items() if v not in (None, False)] + (["refusal-expected"] if must_raise else [])
+    return {"nt": n_ok >= 1 and bool(special) and r * c >= 6, "labels": labels}
+
+
+@st.composite
+def _draws(draw, hi):
+    g = draw(G.shaped_graphs(2, hi, False))
+    r, c = g["r"], g["c"]
+    cells = [[i, j] for i in range(r) for j in range(c)]
+    a = M.adj(g)
+    # root of the recorded component: prefer a cell with neighbours
+    roots = [u for u in cells if a[tuple(u)]] or cells
+    root = draw(st.sampled_from(roots))
+    comp = sorted(M.component(a, tuple(root)))
+    leaves = [list(u) for u in comp if len(a[u]) == 1]
+    opts: dict = {}
+    pick = st.sampled_from(["none", "none", "comp-few", "leaves", "any-few", "all", "outside"])
+
+    def lst(kind):
+        if kind == "comp-few":
+            return draw(st.lists(st.sampled_from([list(u) for u in comp]), min_size=1, max_size=3, unique_by=tuple))
+        if kind == "leaves" and leaves:
+            return draw(st.lists(st.sampled_from(leaves), min_size=1, max_size=3, unique_by=tuple))
+        if kind == "any-few":
+            return draw(st.lists(st.sampled_from(cells), min_size=1, max_size=4, unique_by=tuple))
+        if kind == "all":
+            return list(cells)
+        if kind == "outside":
+            out = [u for u in cells if tuple(u) not in set(comp)]
+            return draw(st.lists(st.sampled_from(out), min_size=1, max_size=2, unique_by=tuple)) if out else None
+        return None
+
+    opts["allowed_start"] = lst(draw(pick))
+    opts["allowed_end"] = lst(draw(pick))
+    if opts["allowed_start"] and draw(st.integers(0, 3)) == 0:
+        opts["allowed_end"] = [opts["allowed_start"][0]]
+    opts["deadend_start"] = draw(st.sampled_from([False, False, True]))
+    opts["deadend_end"] = draw(st.sampled_from([False, False, True]))
+    opts["endpoints_not_equal"] = draw(st.booleans())
+    return {"g": g, "root": root, "opts": opts, "np_seed": draw(st.integers(0, 2**32 - 1)), "draws": 6, "drop_meta": draw(st.booleans())}
+
+
 def _large_cases(count):
     """grids beyond 128 cells per side (coordinates no longer fit the int8 width some arrays are stored with); endpoints are pinned so
     that generation never has to be discarded, specs are derived from VERIF_SEED"""
@@ -156,6 +250,7 @@ def subs(tier: str):
         # parallel generation must be started from a top-level process (the library's worker initializer rejects nested process
         # identities) and multiprocessing.Pool teardown can dead-lock after a worker error: the sub-check therefore runs in fresh
         # interpreters, a chunk of cases at a time, each chunk under a wall limit (a hung chunk is killed and counted, not an alarm)
+        Sub("endpoint-draws", check_draws, "hypothesis", strategy=lambda: _draws(7 if q else 12), examples=150 if q else 3000),
         Sub("grids-beyond-128", check, "exhaustive", cases=_large_cases(6 if q else 24)),
         Sub("parallel-inner", check, "hypothesis", strategy=lambda: _case(6 if q else 10, 12, ["parallel"], 4 if q else 8), examples=50, shards=1, hidden=True),
         Sub("parallel", check, "custom", run=core.hypothesis_in_fresh_interpreters("C03", tier, "parallel-inner", "parallel", 50 if q else 500, 50 if q else 100, 900)),
